@@ -174,7 +174,7 @@ class World:
     """temp dir with the served file, a missing path, a symlink loop, and the sqlite file"""
 
     def __init__(self):
-        self.dir = tempfile.mkdtemp(prefix="c05-")
+        self.dir = tempfile.mkdtemp(prefix="c05-", dir="/dev/shm" if os.path.isdir("/dev/shm") else None)
         self.content = os.path.join(self.dir, "file.txt")
         with open(self.content, "wb") as f:
             f.write(b"secret content\n")
@@ -467,8 +467,7 @@ class C05(Check):
                         for find in ("found", "none", "raise"):
                             combos = [(a, nr, tp, fs) for a in ACT for nr in ("not_found", "continue")
                                       for tp in (False, True) for fs in FS]
-                            if q:
-                                combos = rng.sample(combos, 3)
+                            combos = rng.sample(combos, 3 if q else 12)
                             for (a, nr, tp, fs) in combos:
                                 for client in (clients if not q else rng.sample(clients, 3)):
                                     c = self.mk(kind, "handler", key=key, entries=lst, getd=g, find=find, act=a, nores=nr,
